@@ -496,6 +496,39 @@ def one_thread_case(o, recipe, L, ops, plan, fam, verdict, stats, samples, r=Non
                         "trace_validated": ok})
 
 
+# ------------------------------------------------------------------ _invalidate_cache boundary (F-C10-stale)
+
+def invalidate_witness():
+    """the concrete run of C11_invalidate_live_iterator_refuted on the real code: a cached rruleset of 3
+    dates, an iterator advanced once (it is then in its tail loop), a mutator, next(): the model predicts
+    TypeError.  The defect itself is C10's open finding F-C10-stale; here only the MODEL'S PREDICTION is
+    compared with the implementation (no violation is raised for the known defect)."""
+    from dateutil import rrule as rr
+    s = rr.rruleset(cache=True)
+    for k in range(3):
+        s.rdate(R.to_dt(R.T0 + k * R.DAY))
+    it = iter(s)
+    first = next(it)
+    s.rdate(R.to_dt(R.T0 + 10 * R.DAY))          # _invalidate_cache
+    try:
+        next(it)
+        out = "value"
+    except TypeError:
+        out = "TypeError"
+    except StopIteration:
+        out = "StopIteration"
+    except Exception as ex:
+        out = type(ex).__name__
+    # without a live iterator the mutated set simply lists the new sequence
+    s2 = rr.rruleset(cache=True)
+    for k in range(3):
+        s2.rdate(R.to_dt(R.T0 + k * R.DAY))
+    list(s2)
+    s2.rdate(R.to_dt(R.T0 + 10 * R.DAY))
+    clean = [R.to_int(x) for x in s2] == [R.T0, R.T0 + R.DAY, R.T0 + 2 * R.DAY, R.T0 + 10 * R.DAY]
+    return {"first": R.to_int(first), "live_iterator_after_mutator": out, "no_live_iterator_lists_new_sequence": clean}
+
+
 # ------------------------------------------------------------------ regression corpus
 
 def run_regressions(o, verdict, stats, samples):
@@ -589,7 +622,7 @@ def main():
     stats = {"histories": 0, "hist_family": {}, "hist_len": {}, "hist_impl_vs_spec": 0, "hist_impl_vs_model": 0,
              "schedules": 0, "sched_family": {}, "steps": 0, "blocked_steps": 0, "thread_problems": 0,
              "thread_impl_vs_spec": 0, "thread_impl_vs_model": 0, "traces_validated": 0, "traces_rejected": 0,
-             "ops_hist": {}, "ops_hist_threads": {}, "raising_histories": 0, "raising_cached_vs_uncached": 0, "raising_impl_vs_model": 0,
+             "ops_hist": {}, "ops_hist_threads": {}, "invalidate_witness": None, "raising_histories": 0, "raising_cached_vs_uncached": 0, "raising_impl_vs_model": 0,
              "nontrivial": set()}
     samples = []
     if os.path.exists(os.path.join(C.BIN, "oracle_" + AREA)):
@@ -602,6 +635,17 @@ def main():
             verdict.violation({"kind": "operation never completes (regression corpus did not finish within 60 s)",
                                "input": {"mode": "history", "recipe": R.daily(10), "ops": [["list"], ["list"]],
                                          "history": [[0, 0], [0, 1]] + [[1, j % 2] for j in range(24)]}})
+        try:
+            with R.watchdog(30):
+                iw = invalidate_witness()
+        except R.Timeout:
+            iw = {"live_iterator_after_mutator": "timeout", "no_live_iterator_lists_new_sequence": False}
+        stats["invalidate_witness"] = iw
+        if iw["live_iterator_after_mutator"] != "TypeError" or not iw["no_live_iterator_lists_new_sequence"]:
+            verdict.violation({"kind": "correspondence: _invalidate_cache boundary theorems (C11_invalidate_*) no longer "
+                                       "describe the implementation", "input": None, "observed": iw,
+                               "model": {"live_iterator_after_mutator": "TypeError",
+                                         "no_live_iterator_lists_new_sequence": True}}, concrete=False)
         budget_h = 35 if tier == "quick" else 400
         budget_t = 40 if tier == "quick" else 600
         try:
@@ -655,7 +699,10 @@ def main():
         "raising_generator_histories": stats["raising_histories"],
         "raising_generator_cached_vs_uncached_disagreements (finding F-C11-raise)": stats["raising_cached_vs_uncached"],
         "raising_generator_impl_vs_model_disagreements": stats["raising_impl_vs_model"],
-        "guards": ["theorems are about generators that end normally (raises = false); the complement is "
+        "invalidate_cache_boundary_witness_on_impl": stats.get("invalidate_witness"),
+        "guards": ["mutators (_invalidate_cache) are outside the transition system: C11_invalidate_without_live_iterators "
+                   "(safe when no operation is in flight) / C11_invalidate_live_iterator_refuted (F-C10-stale)",
+                   "theorems are about generators that end normally (raises = false); the complement is "
                    "C11_raising_generator_refuted / known finding F-C11-raise"],
         "partial_theorems": [t for t in props["theorems"] if "partial" in t],
         "outside_the_model": ["pre-emption inside a source line (bytecode level)", "free-threaded CPython",
